@@ -7,7 +7,8 @@ PROP = {
     "level_text": ("Kernel-checked theorems for every probe value < 2^64, every update order, every table size 2^L: the decoded bound of both "
                    "max-probe encoders covers every recorded displacement, both probe sequences are permutations of the buckets, the insertion "
                    "loop reports 'full' only when all buckets are full. The models are executable and compared with the real bucket classes "
-                   "(exhaustively for small probes/tables) on every run; encoder constants are re-extracted from the headers."),
+                   "(exhaustively for small probes/tables) on every run; encoder constants are re-extracted from the headers."
+                   ' Both encoders are additionally TRANSLATED from the header text on every run (tools/translate.py: UpdateMaxProbe, pvUpdateMaxProbe with its while loop, pvGetMaxProbe / GetMaxProbe, byte truncations and size_t wrap-around explicit) and the bound theorems are proved for the generated definitions themselves (C13_bound_*_translated; Open2N2 for displacements <= 2^63, above 2^64-2^57 the real decode would wrap).'),
     "level_note": ("Trusted: Lean kernel, the three standard axioms, extractor, correspondence harness (g++, -fno-access-control). Modelled not "
                    "verified: the C++ byte layout of mState/mData; 64-bit wrap-around is excluded by the hypothesis p < 2^64 and shown not to occur."),
     "modules": ["Momo.Props.C13"],
@@ -18,6 +19,8 @@ PROP = {
         "Momo.Probe.C13_seq_visits_all",
         "Momo.Probe.C13_insert_fails_only_when_full",
         "Momo.Probe.C13_lookup_examines",
+        "Momo.Probe.C13_bound_open2n2_translated",
+        "Momo.Probe.C13_bound_openN1_translated",
     ],
     "harnesses": [
         {"name": "c13_probe", "src": "c13_probe.cpp"},
